@@ -10,6 +10,10 @@ may be nested / unsorted, sums unsimplified, fractions compound).
                                   order) - the relation `Present` of C11
     shrink_expr(e)                smaller candidates for shrinking
     rand_ordering(rng, e, ...)    an ordering (list of encoded vars) covering / not covering the expression
+    well_scoped_mw(e)             the WIDENED quantifier `WellScopedW` of Lean (Y0/Lemmas/SemScopeW.lean): leaves may be
+                                  multi-world joints, several children may share a base variable
+    mw_leaf / struct_mw_sum /     multi-world joint leaves (same base in several worlds / with several value marks) and
+    struct_mw_expr                Sums over them in every relation between the ranges and the duplicated / single bases
 
 Reused by the print / id / cf families: keep the encoding the one of enc_expr.py.
 """
@@ -1106,3 +1110,210 @@ def struct_ranges(rng: random.Random, e, n_names):
             others = [m for m in range(n_names) if m != n]
             out.append(cfv(n, [[rng.choice(others), "m"]]) if others else plain(n))
     return out, mode
+
+
+# --------------------------------------------------------------------------------------------- multi-world joints
+#
+# The generators above keep every WellScoped leaf inside ONE world with pairwise distinct names, so `Sum.simplify` never
+# met two children with the same base variable (its own FIXME).  The functions below are NEW streams (the distribution of
+# the existing generators is unchanged): leaves that are multi-world joints - ordinary y0 objects, the inputs and outputs
+# of ID* / ctfTR - whose children may share a base variable in different worlds or with different value marks.
+
+def leaf_ok_mw(t, S):
+    """the leaf clause of `WellScopedW` relative to the set S of names bound by Sums of the whole expression:
+    at least one child; a subscript `-X` (unstarred) never names a variable of the leaf that is bound by a Sum (the Sum
+    would bind the subscript together with the event value); no `+X` event value with X bound by a Sum.
+    Nothing is required of the worlds or of the names: children may share a base variable, may even repeat."""
+    c, p = _leaf_parts(t)
+    vs = list(c) + list(p)
+    if not c:
+        return False
+    names = {int(v[1]) for v in vs}
+    for w in vs:
+        for a, b in w[4]:
+            if int(a) in names and b != "p" and int(a) in S:
+                return False
+    return not any(v[2] == "p" and int(v[1]) in S for v in vs)
+
+
+def _wsw(e, S):
+    if not isinstance(e, list):
+        return e in ("one", "zero")
+    tag = e[0]
+    if tag in ("P", "PP"):
+        return leaf_ok_mw(e, S)
+    if tag == "Q":
+        return False
+    if tag == "prod":
+        return all(_wsw(x, S) for x in e[1:])
+    if tag == "frac":
+        return _wsw(e[1], S) and _wsw(e[2], S)
+    if tag == "sum":
+        rs = e[1]
+        if not rs or any(not (v[2] == "n" and str(v[3]) == "0" and not v[4]) for v in rs):
+            return False
+        if len({int(v[1]) for v in rs}) != len(rs):
+            return False
+        return _wsw(e[2], S)
+    return False
+
+
+def well_scoped_mw(e):
+    """same definition as `Y0.WellScopedW` (lean/Y0/Lemmas/SemScopeW.lean); `well_scoped(e)` implies it"""
+    return _wsw(e, range_names(e))
+
+
+def has_shared_base(e):
+    """some parent-less or conditional leaf has two children with the same base variable"""
+    for t in subterms(e):
+        if isinstance(t, list) and t[0] in ("P", "PP"):
+            names = [int(v[1]) for v in _leaf_parts(t)[0]]
+            if len(set(names)) < len(names):
+                return True
+    return False
+
+
+def is_multiworld(e):
+    """some leaf mentions two different intervention sets"""
+    for t in subterms(e):
+        if isinstance(t, list) and t[0] in ("P", "PP"):
+            c, p = _leaf_parts(t)
+            if len({tuple(map(tuple, v[4])) for v in list(c) + list(p)}) > 1:
+                return True
+    return False
+
+
+def mw_leaf(rng: random.Random, n_names=4, pop=None, n_dup=None, n_single=None, marks=("n", "n", "m"), dup_marks=None):
+    """(leaf, info): a parent-less joint leaf over several worlds.  `dup` base: 2-3 children with the SAME base variable
+    and pairwise different (world, mark); `single` bases: children whose base occurs once, each in a random world.
+    Subscript names are taken outside the event names of the leaf (so the leaf is in the widened quantifier whatever is
+    summed), except for an occasional `+`-subscript on an own name (allowed) and a rare `-`-subscript on an own name
+    (allowed only when that name is not bound by a Sum)."""
+    names = list(range(n_names))
+    rng.shuffle(names)
+    n_dup = rng.choice([2, 2, 2, 3]) if n_dup is None else n_dup
+    n_single = rng.choice([0, 1, 1, 2]) if n_single is None else n_single
+    n_single = min(n_single, max(0, n_names - 2))
+    a = names[0]
+    singles = names[1:1 + n_single]
+    sub = names[1 + n_single:] or [names[-1]]      # subscript names (if nothing is left: the last single, see below)
+    worlds = [[]]
+    for x in sub[:2]:
+        worlds += [[[x, "m"]], [[x, "p"]]]
+    if len(sub) >= 2:
+        worlds.append([[sub[0], "m"], [sub[1], "m"]])
+    worlds = [w for w in worlds if not ({i[0] for i in w} & ({a} | set(singles)))] or [[]]
+    combos = [(tuple(map(tuple, w)), m) for w in worlds for m in sorted(set(dup_marks or marks))]
+    rng.shuffle(combos)
+    dups = [cfv(a, [list(i) for i in w], m) for w, m in combos[:max(n_dup, 1)]]
+    others = [cfv(x, rng.choice(worlds), rng.choice(marks)) for x in singles]
+    k = rng.random()
+    if k < 0.12 and others:        # a `+`-subscript on an own name
+        tgt = rng.choice(dups)
+        tgt[4] = sorted(tgt[4] + [[singles[0], "p"]], key=lambda q: (q[0], q[1] == "p"))
+    elif k < 0.18 and others:      # a `-`-subscript on an own name: inside the class only when that name is not summed
+        tgt = rng.choice(dups)
+        tgt[4] = sorted(tgt[4] + [[singles[0], "m"]], key=lambda q: (q[0], q[1] == "p"))
+    children = dups + others
+    rng.shuffle(children)
+    seen, uniq = set(), []
+    for v in children:
+        key = (v[1], v[2], tuple(map(tuple, v[4])))
+        if key not in seen:
+            seen.add(key)
+            uniq.append(v)
+    leaf = mk_leaf(uniq, pop=pop)
+    return leaf, {"dup": a, "singles": singles, "fresh": [x for x in sub if x != a and x not in singles]}
+
+
+MW_MODES = ("dup", "single", "both", "all", "superset", "partial", "miss")
+
+
+def struct_mw_sum(rng: random.Random, n_names=4, mode=None, pop=None, wrap=None):
+    """(expression, label): Sum over a multi-world joint leaf.  Relation between the ranges and the children:
+    dup = exactly the duplicated base; single = one base that occurs once; both; all = every base; superset = every base
+    and a fresh name; partial = a single base and a fresh name; miss = fresh names only.  On the pinned code EVERY mode
+    rebuilt the leaf from the dict {base: child} and so dropped all but one child per base (miss included)."""
+    mode = mode or rng.choice(MW_MODES)
+    if pop is False:
+        pop = None
+    for _ in range(30):
+        need_single = mode in ("single", "both", "partial")
+        leaf, info = mw_leaf(rng, n_names, pop=pop, n_single=rng.choice([1, 1, 2]) if need_single else None,
+                             dup_marks=("n", "m", "p") if mode in ("single", "partial", "miss") else None)
+        a, singles, fresh = info["dup"], info["singles"], info["fresh"]
+        if need_single and not singles:
+            continue
+        if mode in ("superset", "partial", "miss") and not fresh:
+            fresh = [n_names]          # a name outside the pool
+        if mode == "dup":
+            r = [a]
+        elif mode == "single":
+            r = [rng.choice(singles)]
+        elif mode == "both":
+            r = [a, rng.choice(singles)]
+        elif mode == "all":
+            r = [a] + list(singles)
+        elif mode == "superset":
+            r = [a] + list(singles) + [fresh[0]]
+        elif mode == "partial":
+            r = [rng.choice(singles), fresh[0]]
+        else:
+            r = [fresh[0]]
+        body = leaf
+        h = rng.random()
+        if h < 0.12:
+            body = ["frac", leaf, "one"]
+        elif h < 0.24:
+            body = ["prod", "one", leaf]
+        elif h < 0.34:             # the leaf only appears after an inner marginalisation of a name outside the pool
+            z = n_names + 1
+            c, _p = _leaf_parts(leaf)
+            big = list(c) + [cfv(z)]
+            rng.shuffle(big)
+            body = ["sum", [plain(z)], mk_leaf(big, pop=pop)]
+        e = ["sum", [plain(n) for n in sorted(set(r))], body]
+        w = wrap or rng.choice(["none", "none", "prod", "num", "den", "sum", "pair"])
+        other = mk_leaf([rng.randrange(n_names)], pop=rng.choice([None, pop]))
+        if w == "prod":
+            e = ["prod", other, e]
+        elif w == "num":
+            e = ["frac", e, other]
+        elif w == "den":
+            e = ["frac", other, e]
+        elif w == "sum":
+            e = ["sum", [plain(n_names + 2)], ["prod", e, mk_leaf([n_names + 2], [rng.randrange(n_names)])]]
+        elif w == "pair":
+            e2, _ = struct_mw_sum(rng, n_names, wrap="none", pop=pop)
+            e = ["prod", e, e2]
+        if well_scoped_mw(e):
+            return e, f"mwsum:{mode}:{'PP' if pop else 'P'}"
+    return e, f"mwsum:{mode}:out"
+
+
+def struct_mw_expr(rng: random.Random, n_names=4):
+    """one structured expression around multi-world joints: a Sum over one (70%), a bare leaf / product / fraction of
+    such leaves (canonicalisation must only sort the children), or a single-base multi-world leaf under a Sum (every
+    child in its own world, all bases distinct: the marginalisation must still happen)"""
+    k = rng.random()
+    if k < 0.7:
+        return struct_mw_sum(rng, n_names, pop=rng.choice([None, None, POPS[0]]))
+    if k < 0.85:
+        l1, _ = mw_leaf(rng, n_names)
+        l2, _ = mw_leaf(rng, n_names)
+        e = rng.choice([l1, ["prod", l1, l2], ["frac", l1, l2], ["prod", l2, ["frac", l1, present_shuffle(rng, l1)]]])
+        return e, "mwleaf"
+    # distinct bases, different worlds
+    names = list(range(n_names))
+    rng.shuffle(names)
+    k2 = rng.choice([2, 2, 3]) if n_names >= 4 else 2
+    ch, rest = names[:k2], names[k2:] or [n_names]
+    worlds = [[], [[rest[0], "m"]], [[rest[0], "p"]]] + ([[[rest[-1], "m"]]] if len(rest) > 1 else [])
+    children = [cfv(x, rng.choice(worlds), rng.choice(["n", "n", "m"])) for x in ch]
+    r = rng.sample(ch, rng.randint(1, len(ch)))
+    if rng.random() < 0.3:
+        r.append(n_names + 1)
+    e = ["sum", [plain(n) for n in sorted(set(r))], mk_leaf(children, pop=rng.choice([None, None, POPS[0]]))]
+    if rng.random() < 0.4:
+        e = ["frac", e, mk_leaf([ch[0]])] if rng.random() < 0.5 else ["prod", e, mk_leaf([names[-1]])]
+    return e, "mwdistinct"
